@@ -610,8 +610,6 @@ fn rollback(state: &mut ApplyState) -> Result<()> {
     Ok(())
 }
 
-/// Apply a renaming plan
-#[allow(clippy::too_many_lines)]
 /// Both paths name the same directory entry (a case-only rename on a case-insensitive
 /// filesystem). Resolving to the same file is not enough: a symlink or hard link to the source
 /// does that too, and is an occupant of its own that the rename would replace. So the directory
@@ -648,6 +646,8 @@ fn names_same_dir_entry(path: &Path, new_path: &Path) -> bool {
     }
 }
 
+/// Apply a renaming plan
+#[allow(clippy::too_many_lines)]
 pub fn apply_plan(plan: &mut Plan, options: &ApplyOptions) -> Result<()> {
     // Refuse a plan whose id is already recorded BEFORE anything is changed: `add_entry` at the
     // end of this function would reject it anyway, but only after the tree has been edited.
